@@ -359,30 +359,73 @@ class Sym:
                         bad = True
             if not bad:
                 res.append((cond, val))
-        # a branch on a bool variable that several definitions feed (`let ok = a && b && c;
-        # if !ok { return .. }`): what held on every path that can have produced that value
         extra = []
-        for (cond, val) in res:
+        work = list(res)
+        for _round in range(4):
+            new_facts = self._expand_facts(work, res + extra)
+            if not new_facts:
+                break
+            extra += new_facts
+            work = new_facts
+        return res + extra
+
+    def _expand_facts(self, work, known):
+        """facts implied by the facts in `work` through bool variables, crate-local bool
+        predicates and the Ok paths of crate-local Result functions (one expansion step)"""
+        fn = self.fn
+        out = []
+
+        def add(f_):
+            if f_ not in known and f_ not in out:
+                out.append(f_)
+        for (cond, val) in work:
             c, v = cond, val
             while c[0] == "un" and c[1] == "Not" and isinstance(v, bool):
                 c, v = c[2], (not v)
+            # a branch on a bool variable that several definitions feed (`let ok = a && b && c;
+            # if !ok { return .. }`): what held on every path that can have produced that value
             if c[0] == "local" and isinstance(v, (bool, int)) and fn.local_ty(c[1]) == "bool":
                 for f_ in self._implied_by_bool(c[1], bool(v)):
-                    if f_ not in res and f_ not in extra:
-                        extra.append(f_)
-        # a branch on the result of a crate-local bool function: what holds on every path on
-        # which it returns that value, arguments substituted
-        for (cond, val) in list(res):
-            c, v = cond, val
-            while c[0] == "un" and c[1] == "Not" and isinstance(v, bool):
-                c, v = c[2], (not v)
+                    add(f_)
+            # the result of a crate-local bool function: what holds on every path on which it
+            # returns that value, arguments substituted
             if c[0] in ("call", "callat") and isinstance(v, (bool, int)):
                 alts = call_alternatives(getattr(fn, "prog", None), c, bool(v))
                 if alts:
                     for f_ in set.intersection(*alts):
-                        if f_ not in res and f_ not in extra:
-                            extra.append(f_)
-        return res + extra
+                        add(f_)
+            # `validator(..)?` continued / `if let Ok(..) = validator(..)`: what every Ok path of a
+            # crate-local Result function established
+            if c[0] == "discr" and v in (0, 1):
+                x = c[1]
+                while isinstance(x, tuple) and x and x[0] in ("cast", "ref", "deref"):
+                    x = x[2] if x[0] == "cast" else x[1]
+                through_try = False
+                if x[0] == "callat" and x[2] == "branch" and x[3]:
+                    x = x[3][0]
+                    through_try = True
+                # adaptors that keep success / failure: opt.ok_or(e), res.map_err(f), res.ok(), ..
+                for _ in range(4):
+                    if isinstance(x, tuple) and x and x[0] in ("call", "callat") and \
+                            (x[1] if x[0] == "call" else x[2]) in ("ok_or", "ok_or_else", "map_err", "ok", "map") \
+                            and (x[2] if x[0] == "call" else x[3]):
+                        x = (x[2] if x[0] == "call" else x[3])[0]
+                    else:
+                        break
+                success = (v == 0) if through_try else None
+                if success is None and isinstance(x, tuple) and x and x[0] in ("call", "callat"):
+                    g_ = getattr(fn, "prog", None)
+                    res_ = x[4] if x[0] == "callat" else x[3]
+                    gg = g_.fns.get(res_) if g_ is not None and isinstance(res_, str) else None
+                    oty = (gg.d.get("output") or "") if gg is not None else ""
+                    # discriminants: Result::Ok = 0, Option::Some = 1
+                    success = (v == 0) if "Result<" in oty else ((v == 1) if "Option<" in oty else False)
+                if success and isinstance(x, tuple) and x and x[0] in ("call", "callat"):
+                    alts = call_alternatives(getattr(fn, "prog", None), x, True, "ok")
+                    if alts:
+                        for f_ in set.intersection(*alts):
+                            add(f_)
+        return out
 
     def _implied_by_bool(self, l, val, depth=0):
         """facts that held whenever bool local l received the value `val` (intersection over its
@@ -426,19 +469,48 @@ def _subst(e, mapping):
     return tuple(_subst(x, mapping) if isinstance(x, tuple) else x for x in e)
 
 
+def project(e):
+    """[a, b, c][1] -> b and (a, b).0 -> a (values that travel as an array / tuple)"""
+    if not isinstance(e, tuple) or not e:
+        return e
+    e = tuple(project(x) if isinstance(x, tuple) else x for x in e)
+    if e[0] == "index" and len(e) >= 3 and isinstance(e[1], tuple) and e[1] and e[1][0] == "agg" \
+            and e[1][1] in ("array", "tuple"):
+        k = e[2]
+        while isinstance(k, tuple) and k and k[0] == "cast":
+            k = k[2]
+        if isinstance(k, tuple) and k and k[0] == "const" and isinstance(k[1], int) and k[1] < len(e[1][4]):
+            return e[1][4][k[1]]
+    if e[0] == "field" and isinstance(e[1], tuple) and e[1] and e[1][0] == "agg" and e[1][1] == "tuple":
+        try:
+            k = int(e[2])
+        except (TypeError, ValueError):
+            return e
+        if k < len(e[1][4]):
+            return e[1][4][k]
+    return e
+
+
 _ALT_BUSY = set()
 
 
-def call_alternatives(prog, e, val):
-    """one set of facts (cond, bool) per path on which the crate-local bool function called by e
-    returns `val` (the switch edges taken + the returned expression == val), arguments
-    substituted; None when e is not such a call or the callee has loops / too many paths"""
+def call_alternatives(prog, e, val, want="bool"):
+    """one set of facts (cond, bool) per path on which the crate-local function called by e
+    returns `val` (want="bool": a bool function) or returns Ok(..) (want="ok": a function
+    returning Result; a tail call of another such function contributes its own Ok paths): the
+    switch edges taken (+ the returned expression == val), arguments substituted; None when e
+    is not such a call or the callee has loops / too many paths"""
     if prog is None or not isinstance(e, tuple) or not e or e[0] not in ("call", "callat"):
         return None
     res = e[4] if e[0] == "callat" else e[3]
     args = e[3] if e[0] == "callat" else e[2]
     g = prog.fns.get(res) if isinstance(res, str) else None
-    if g is None or g.d.get("output") != "bool" or g.kind == "closure" or len(args) != g.arg_count:
+    if g is None or g.kind == "closure" or len(args) != g.arg_count:
+        return None
+    out_ty = g.d.get("output") or ""
+    if want == "bool" and out_ty != "bool":
+        return None
+    if want == "ok" and "Result<" not in out_ty and "Option<" not in out_ty:
         return None
     if g.id in _ALT_BUSY:
         return None
@@ -478,6 +550,28 @@ def call_alternatives(prog, e, val):
                     count[0] = 10 ** 6
                     return
                 fs = set(facts)
+                if want == "ok":
+                    if r[0] == "agg" and r[1] == "adt" and (str(r[2]).endswith("result::Result")
+                                                           or str(r[2]).endswith("option::Option")):
+                        if (r[3][1] if isinstance(r[3], (list, tuple)) else r[3]) not in ("Ok", "Some"):
+                            return
+                        alts.append(fs)
+                        return
+                    if r[0] in ("call", "callat") and (r[1] if r[0] == "call" else r[2]) in ("then_some", "then"):
+                        # cond.then_some(v): Some exactly when cond holds
+                        a0 = (r[2] if r[0] == "call" else r[3])[0]
+                        alts.append(fs | {(_subst(a0, mapping), True)})
+                        return
+                    if r[0] in ("call", "callat"):
+                        inner = call_alternatives(prog, _subst(r, mapping), True, "ok")
+                        if inner is None:
+                            count[0] = 10 ** 6
+                            return
+                        for a_ in inner:
+                            alts.append(fs | a_)
+                        return
+                    count[0] = 10 ** 6
+                    return
                 if r[0] == "const" and isinstance(r[1], bool):
                     if r[1] != val:
                         return
@@ -486,7 +580,7 @@ def call_alternatives(prog, e, val):
                 alts.append(fs)
                 return
             for s_ in g.succ[b]:
-                extra = [(_subst(c_, mapping), v_) for c_, v_ in edge.get((b, s_), []) if isinstance(v_, bool)]
+                extra = [(project(_subst(c_, mapping)), v_) for c_, v_ in edge.get((b, s_), []) if isinstance(v_, bool)]
                 walk(s_, path, facts + extra)
         walk(0, [], [])
         if count[0] >= 10 ** 6:
